@@ -27,7 +27,7 @@ type c07Case struct {
 	// typed is edited, undone and redone all the same
 	NoHist bool   `json:"nohist,omitempty"`
 	Word   string `json:"word,omitempty"`
-	Char string `json:"char,omitempty"`
+	Char   string `json:"char,omitempty"`
 }
 
 var c07Words = []string{"жук b", "é à", "日本 語", "a ü c", "e\u0301x y", "😀 z", "ab 界", "ñ"}
